@@ -1,21 +1,22 @@
+\* control design, must violate MembersIndependent
 SPECIFICATION Spec
 CONSTANTS
   SlotsPerEpoch = 2
   EpochsPerPeriod = 2
-  Forks = {0, 1, 2}
-  Nows = {0, 1, 2, 3, 4, 5, 6, 7, 8, 9, 10, 11}
-  ScheduleEpochs = {0, 2, 4}
-  Members = {1}
-  IndexSets = {{0}}
+  Forks = {0}
+  Nows = {4}
+  ScheduleEpochs = {2}
+  Members = {1, 2}
+  IndexSets = {{0}, {5}}
   Sizes = {8}
   SubnetCounts = {4}
-  Targets = {2}
+  Targets = {1}
   Roots = {1}
   HVals = {0}
   HMod = 2
   MaxSched = 1
-  FaultKinds = {}
-  Deviation = "none"
+  FaultKinds = {"cp"}
+  Deviation = "ZeroCpFailsAll"
   MaxFired = 1
 INVARIANTS TypeOK EverySlotOfWindow OnlySlotsOfWindow JobOrder SignedOverObtainedRoot MembersIndependent AggregatorRuleExact
 CHECK_DEADLOCK FALSE
